@@ -36,7 +36,7 @@ def make_span(spec):
     if ty == 'list_str':
         return [f'p{o + i}' for i in range(n)]
     if ty == 'list_mixed':
-        return [_MIXED[(o + i) % len(_MIXED)] for i in range(n)] if n <= len(_MIXED) else None
+        return [_MIXED[(o + i) % len(_MIXED)] if i < len(_MIXED) else ('more', i) for i in range(n)]
     if ty == 'np_int':
         return np.arange(o, o + n)
     if ty == 'np_str':
